@@ -175,13 +175,14 @@ def run_case(ctx, kind_, idx):
     x, y, meta = R.gen_series(rng, 2, 60, ties_share=0.45, real_valued=small_exp)
     if strat == "CubicSplineRFA" and meta["m"] < 2:
         return
+    x, y_arg, y = R.narrow_series(rng, x, y, meta)
     info = R.brief(strat, x, y, n, kw, meta)
     try:
         with fp_watch(ctx):
             if rng.integers(0, 4) == 0:
                 # the caller post-processes a first result in place and asks the same object again: what comes back
                 # must be a recreation of the averages, not the caller's modified numbers
-                obj = R.cls(strat)(x, y, n, **kw)
+                obj = R.cls(strat)(x, y_arg, n, **kw)
                 xs0, ys0 = obj.rfa()
                 if isinstance(ys0, np.ndarray) and isinstance(xs0, np.ndarray):
                     ys0 *= -3.0
@@ -191,7 +192,7 @@ def run_case(ctx, kind_, idx):
                 info["second_call_on_same_object"] = True
                 ctx.count("second_call_on_same_object")
             else:
-                xs, ys = R.run(strat, x, y, n, kw)
+                xs, ys = R.run(strat, x, y_arg, n, kw, rng=rng)
     except Exception as e:
         ctx.judged()
         ctx.exception("raised_on_admissible_input", cid, e, {"case": info})
